@@ -68,6 +68,10 @@ Proof. exact c_up_sample_exact. Qed.
 Theorem C20_coordinate_count_quadruples : forall (h : T ROps) (S : cs ROps),
   c_len (@c_up_sample ROps h S) = (4 * c_len S)%nat.
 Proof. exact (@c_up_sample_len ROps). Qed.
+Theorem C20_coordinate_vertices_preserved : forall (h : T ROps) (S : cs ROps) (t : rtri) (p : rpt),
+  In t (@c_triangles ROps h S) -> is_corner p t ->
+  exists c, In c (@c_triangles ROps h (c_up_sample h S)) /\ is_corner p c.
+Proof. exact c_vertices_preserved. Qed.
 (* the closed-form area of the lattice representation is the sum of its triangles' areas, and is conserved *)
 Theorem C20_coordinate_area_formula : forall (h : T ROps) (S : cs ROps),
   0 <= h -> @c_area ROps h S = total_area (c_triangles h S).
@@ -145,6 +149,14 @@ Theorem C20_checker_inside_is_inside : forall (p : rpt) (t : rtri),
   @spec_inside ROps p t = true <-> nondegenerate t /\ inside t p.
 Proof. exact spec_inside_iff. Qed.
 
+(* likewise the executable subdivision / neighbour lists the run compares the implementation's output with *)
+Theorem C20_checker_children_are_subdivision : forall (t : rtri),
+  same_triangle_set (@spec_children ROps t) (subdivision t).
+Proof. exact spec_children_is_subdivision. Qed.
+Theorem C20_checker_neighbours_are_neighbours : forall (t n : rtri),
+  In n (@spec_neighbours ROps t) <-> self_or_neighbour t n.
+Proof. exact spec_neighbours_are_neighbours. Qed.
+
 (* ------------------------------------------------------------ non-vacuity *)
 Definition ex_t : rtri := ((0, 0), (4, 0), (1, 3)).
 Example C20_hyps_satisfiable :
@@ -173,3 +185,5 @@ Print Assumptions C20_representations_agree. Print Assumptions C20_representatio
 Print Assumptions C20_point_mask_is_inside. Print Assumptions C20_point_mask_degenerate.
 Print Assumptions C20_shape_mask_if_reference_point_inside. Print Assumptions C20_array_containing_indices.
 Print Assumptions C20_coordinate_containing_indices. Print Assumptions C20_checker_inside_is_inside.
+Print Assumptions C20_coordinate_vertices_preserved. Print Assumptions C20_checker_children_are_subdivision.
+Print Assumptions C20_checker_neighbours_are_neighbours.
